@@ -229,11 +229,21 @@ def run_shard(spec, rec):
             sysobj = getattr(ureg.sys, S)
             cands = [n[len(S) + 1:] for n in m.spell if n.startswith(S + "_")]
             plain = rng.sample(sorted(n for n in m.order if n.isidentifier()), 40)
-            for n in cands + plain:
+            # plural spellings of the variant names (sys.imperial.pints): the registry reads
+            # 'imperial_pints' as the plural of imperial_pint, so the system must answer with its variant
+            plurals = []
+            for n in cands:
+                if n.isidentifier() and (S + "_" + n + "s") not in m.spell and (n + "s") not in m.spell:
+                    rd = m.readings(S + "_" + n + "s")
+                    if len(rd) == 1 and rd[0][0] == "":
+                        plurals.append((n + "s", rd[0][1]))
+            rec.count("sys_attr_plural_spellings", len(plurals))
+            plural_want = dict(plurals)
+            for n in cands + plain + [p for p, _ in plurals]:
                 rec.count("sys_attr_checked")
-                rec.case(("sysattr", S, n), nontrivial=n in cands)
+                rec.case(("sysattr", S, n), nontrivial=n in cands or n in plural_want)
                 variant = S + "_" + n
-                want = m.spell.get(variant) or (m.spell.get(n) if n in m.spell else None)
+                want = plural_want.get(n) or m.spell.get(variant) or (m.spell.get(n) if n in m.spell else None)
                 if want is None:
                     continue
                 try:
